@@ -3,7 +3,8 @@ CHECKS = {
    technique="online trace monitor over the exhaustive product of real transitions and monitor state",
    text="Every (state, event) pair and every edge of the finite product (implementation state x monitor state) reachable "
         "from the 16 persistent states is executed as a real btokPwdTransition call under ASan; the monitor checks the six "
-        "rules of the statement on each edge, so every finite history's verdict is observed. Random long histories cross-check.",
+        "rules of the statement on each edge (incl. the converse of the PUK rule: a correct PUK before the tenth wrong one makes the "
+        "PIN usable again), so every finite history's verdict is observed. Random long histories cross-check.",
    note="Trusts the monitor's reading of the rules (DESIGN.md C20) and that the function is a pure function of (state, event)."),
  "C18": dict(level="exploration",
    technique="ThreadSanitizer on a multi-threaded stress harness + value monitors (exactly-once, permutation, shadow refcount, duplicate-block scan) over many fresh processes with seeded yields",
@@ -32,13 +33,14 @@ CHECKS = {
    text="All 33 SAFE/FAST pairs are compared on equal / first-differing-at-every-position / boundary / multiple-of-modulus operands at lengths "
         "0..16 words (0..40 octets); the Release machine code is run under memcheck with operand values, keys, tags and data marked undefined "
         "(any dependent conditional jump inside a target is a violation; FAST editions are the positive control every run); and a "
-        "coverage-instrumented Release build must produce one identical executed-edge trace per (target, length) over 64 value sets.",
+        "coverage-instrumented Release build must produce one identical executed-edge trace per (target, length) over 64 value sets (for "
+        "the unwrap functions: one trace per verdict, also over rejected tokens that match the expected header in 0..15 octets).",
    note="memcheck follows one path per run and does not propagate taint through table look-ups; trace equality is over sampled values; "
         "cache-timing via table indices is outside the property; gcc -O3 build only (clang Release in thorough is not yet added)."),
  "C01": dict(level="exploration",
    technique="reference-model oracle (naive Python STB 34.101.31) + inverse/tamper metamorphic oracles under ASan, exhaustive FMT block-count table",
    text="Every belt mechanism is driven through the high-level and the Start/Step API on exact-size heap buffers: all key lengths, every message "
-        "length 0..80 (CTS 16..47, WBL/KWP every length 32..208), counters crafted to carry out of 32/64/96/128 bits, HMAC keys 0..96, PBKDF2, "
+        "length 0..80 (CTS 16..47, WBL/KWP every length 32..208 and wide blocks of 2032..8192 octets), counters crafted to carry out of 32/64/96/128 bits, HMAC keys 0..96, PBKDF2, "
         "FMT alphabets x word counts; outputs must equal the independent model octet for octet, D(E(x)) = x, and authenticated unwrap must "
         "reject every single-bit alteration of tag/header and sampled alterations of ciphertext/AD/IV/key. The FMT block-count table is "
         "compared with exact integer arithmetic (quick: 481k entries; thorough: all 19,660,500).",
@@ -107,13 +109,15 @@ CHECKS = {
    technique="roundtrip / tamper monitors + header-text chain-validity model for CV certificates, secure messaging dialogues and bpki containers under ASan",
    text="CV certificates for key lengths 24/32/48/64 with boundary names, dates and access words, chains of depth 1..3 with every octet of every "
         "certificate altered; secure-messaging dialogues of 1..12 command/response pairs with every Lc/Le form, counters in step / out of step / "
-        "wrong parity and every protected octet flipped; password-protected containers with wrong passwords, wrong type and every octet altered.",
+        "wrong parity and every protected octet flipped, and the same Lc/Le forms through the SM functions without state; password-protected "
+        "containers with wrong passwords, wrong type, every octet altered, iteration counts across the DER length boundary.",
    note="Replay at the same counter is not claimed (MAC does not cover the counter by design)."),
  "C02": dict(level="exploration",
    technique="reference-model oracle (STB 34.101.45 over a naive affine curve model) with crafted generator tapes and model-decided verifier alterations under ASan",
    text="3 curves x private keys {1, 2, q-1, random} x hashes {0, 1, q-1, q, q+1, 2^2l-1, random, crafted H >= q triples} x OIDs x generator "
         "tapes (random, r bad candidates then a good one, all-bad, candidates in [q, p)); signatures must equal the model and verify; every "
-        "alteration of s0, s1, H, Q, OID, token, header is decided by the model on the altered input; DH symmetry, key transport round trip, IBS.",
+        "alteration of s0, s1, H, Q, OID, token, header is decided by the model on the altered input; DH symmetry, key transport round trip, IBS; "
+        "forgery scans: 1.4e5 (thorough 1.2e6) signatures with s1 replaced must all be refused by bignIdExtract / bignVerify.",
    note="belt-hash/wblock/kwp inside the model are the library's (tied to the standard by C01); appendix vectors exist for l = 128 only."),
  "C05": dict(level="exploration",
    technique="header-formula oracle in Python integers / GF(2)[x] bit vectors over boundary catalogues, both word sizes, SAFE and FAST editions, under ASan",
